@@ -447,6 +447,12 @@ func (rs *RelationService) createTable(r *Relation, tableName string) error {
 		return ErrTableAlreadyExist
 	}
 
+	// reject catalog rows that do not fit before anything is allocated or
+	// inserted, so that a refused CREATE TABLE leaves no trace
+	if err := checkCatalogRows(r, tableName); err != nil {
+		return err
+	}
+
 	pg, err := rs.createPage()
 	if err != nil {
 		return err
@@ -455,6 +461,44 @@ func (rs *RelationService) createTable(r *Relation, tableName string) error {
 		return err
 	}
 	return rs.insertSchemaTable(r, tableName)
+}
+
+// checkCatalogRows encodes the page table row and every schema table row of
+// a new table and reports the first one that cannot be stored.
+func checkCatalogRows(r *Relation, tableName string) error {
+	pageRow := Tuple{
+		Relation: &pageTableSchema,
+		Vals: map[string]interface{}{
+			"table_name":  tableName,
+			"file_offset": int64(0),
+		},
+	}
+	if err := checkTupleFits(&pageRow); err != nil {
+		return err
+	}
+	for _, fd := range r.Fields {
+		schemaRow := Tuple{
+			Relation: &schemaTableSchema,
+			Vals: map[string]interface{}{
+				"table_name":   tableName,
+				"field_name":   fd.Name,
+				"field_type":   int64(fd.DataType),
+				"field_length": fd.Len,
+			},
+		}
+		if err := checkTupleFits(&schemaRow); err != nil {
+			return err
+		}
+	}
+	return nil
+}
+
+func checkTupleFits(t *Tuple) error {
+	buf, err := t.Encode()
+	if err != nil {
+		return err
+	}
+	return checkRowSizeLimit(buf.Bytes())
 }
 
 func (rs *RelationService) createPage() (*btreeNode, error) {
